@@ -57,6 +57,76 @@ Fixpoint obs_ok (k : Z) (tr : list (Z * Z)) (cw cr pw pr : Z) : bool :=
       chk && (cw' + pw' - cr' <=? k - 1) && (cr' + pr' <=? cw') && obs_ok k r cw' cr' pw' pr'
   end.
 
+(* ---- second walk: operation results against the abstract occupancy, model-independently ----
+   For every try_push_batch / try_pop_batch the number of payload accesses that follow its second index load must be exactly
+   min(requested, free space / available elements as observed at that load) (free = capacity() - occupancy, with
+   occupancy = committed writes - committed reads); size() must return committed writes at its tail load minus committed
+   reads at its head load; empty() / full() must report occupancy = 0 / = capacity().  Requested counts come from the scripts,
+   results from the implementation's result log. *)
+Definition getl (l : list (list Z)) (t : Z) : list Z := nth (Z.to_nat t) l [].
+Fixpoint setl (l : list (list Z)) (t : nat) (x : list Z) : list (list Z) :=
+  match l, t with
+  | [], _ => []
+  | _ :: r, O => x :: r
+  | y :: r, S m => y :: setl r m x
+  end.
+Definition popl (l : list (list Z)) (t : Z) : list (list Z) := setl l (Z.to_nat t) (tl (getl l t)).
+
+(* number of entries [site] among thread t's next entries, ignoring its [skip] entries, up to its first other entry;
+   the bool tells whether such an other entry was seen (the run is complete) *)
+Fixpoint count_run (t site skip : Z) (tr : list (Z * Z)) : Z * bool :=
+  match tr with
+  | [] => (0, false)
+  | (t', s) :: r =>
+      if t' =? t then
+        if s =? site then let '(n, b) := count_run t site skip r in (n + 1, b)
+        else if s =? skip then count_run t site skip r
+        else (0, true)
+      else count_run t site skip r
+  end.
+
+Definition batch_lens (p : list op) : list Z :=
+  concat (map (fun o => match o with OPushBatch vs => [Z.of_nat (length vs)] | _ => [] end) p).
+Definition popbatch_ms (p : list op) : list Z :=
+  concat (map (fun o => match o with OPopBatch m => [m] | _ => [] end) p).
+
+Fixpoint walk2 (k : Z) (fin : bool) (tr : list (Z * Z)) (cw cr pw pr : Z)
+               (bl ql szr emr fur shd : list (list Z)) : bool :=
+  match tr with
+  | [] => true
+  | (t, site) :: r =>
+      let occ := cw - cr in
+      let next (cw' cr' pw' pr' : Z) (bl' ql' szr' emr' fur' shd' : list (list Z)) :=
+        walk2 k fin r cw' cr' pw' pr' bl' ql' szr' emr' fur' shd' in
+      if site =? s_pushb_head_load then
+        let ok := match getl bl t with
+                  | len :: _ => let '(n, closed) := count_run t s_pushb_data_write (-1) r in
+                                negb (closed || fin) || (n =? Z.max 0 (Z.min len (k - 1 - occ)))
+                  | [] => true end in
+        ok && next cw cr pw pr (popl bl t) ql szr emr fur shd
+      else if site =? s_popb_tail_load then
+        let ok := match getl ql t with
+                  | m :: _ => let '(n, closed) := count_run t s_popb_data_read s_popb_data_destroy r in
+                              negb (closed || fin) || (n =? Z.max 0 (Z.min m occ))
+                  | [] => true end in
+        ok && next cw cr pw pr bl (popl ql t) szr emr fur shd
+      else if site =? s_size_head_load then next cw cr pw pr bl ql szr emr fur (setl shd (Z.to_nat t) [cr])
+      else if site =? s_size_tail_load then
+        let ok := match getl szr t, getl shd t with v :: _, h :: _ => v =? cw - h | _, _ => true end in
+        ok && next cw cr pw pr bl ql (popl szr t) emr fur shd
+      else if site =? s_empty_loads then
+        let ok := match getl emr t with v :: _ => v =? b2z (occ =? 0) | [] => true end in
+        ok && next cw cr pw pr bl ql szr (popl emr t) fur shd
+      else if site =? s_full_loads then
+        let ok := match getl fur t with v :: _ => v =? b2z (occ =? k - 1) | [] => true end in
+        ok && next cw cr pw pr bl ql szr emr (popl fur t) shd
+      else if (site =? s_push_data_write) || (site =? s_pushb_data_write) then next cw cr (pw + 1) pr bl ql szr emr fur shd
+      else if (site =? s_push_tail_store) || (site =? s_pushb_tail_store) then next (cw + pw) cr 0 pr bl ql szr emr fur shd
+      else if (site =? s_pop_data_read) || (site =? s_popb_data_read) then next cw cr pw (pr + 1) bl ql szr emr fur shd
+      else if (site =? s_pop_head_store) || (site =? s_popb_head_store) then next cw (cr + pr) pw 0 bl ql szr emr fur shd
+      else next cw cr pw pr bl ql szr emr fur shd
+  end.
+
 (* the slots from head to tail as the implementation left them *)
 Fixpoint iring (sl : list (Z * Z)) (k i : Z) (n : nat) : list (Z * Z) :=
   match n with O => [] | S m => nth (Z.to_nat i) sl (0, 0) :: iring sl k ((i + 1) mod k) m end.
@@ -74,6 +144,9 @@ Definition property_holds (c : scase) : bool :=
   && nodupb popped                                                        (* no element delivered twice (tags are unique) *)
   && (Z.of_nat (length pushed) - Z.of_nat (length popped) <=? c_k c - 1)  (* bounded *)
   && obs_ok (c_k c) (i_trace c) 0 0 0 0
+  && walk2 (c_k c) (i_status c =? 0) (i_trace c) 0 0 0 0
+       [batch_lens (c_p0 c); batch_lens (c_p1 c)] [popbatch_ms (c_p0 c); popbatch_ms (c_p1 c)]
+       (map (ivals r_size) (i_results c)) (map (ivals r_empty) (i_results c)) (map (ivals r_full) (i_results c)) [[]; []]
   && forallb (fun x => (0 <=? snd x) && (snd x <=? c_k c - 1)) (filter (fun x => fst x =? r_size) (concat (i_results c)))
   && (i_errs c =? 0)
   && (negb (i_status c =? 0)
